@@ -101,6 +101,7 @@ MUTANTS = [
     ('C04', 'supp/evaluator.py', r"names = node\.flow\.names_at\(np\(node\)\)\n            name = names\.get\(node\.id\)", "names = node.flow.names\n            name = names.get(node.id)", 'C04-R3'),
     ('C04', 'supp/scope.py', r"    @property\n    def names\(self\):\n        # type: \(\) -> t\.Mapping\[str, Name \| MultiName\]\n        return MergedDict\(self\.flow\.names, self\._global_names\)", "    @cached_property\n    def names(self):\n        # type: () -> t.Mapping[str, Name | MultiName]\n        return MergedDict(self.flow.names, self._global_names)", 'C04-R1'),
     ('C04', 'supp/evaluator.py', r"        self\.nodes = set\(\)  # type: set\[t\.Hashable\]", "        self.nodes = set()  # type: set[t.Hashable]\n        self.position = None", 'C04-R4'),
+    ('C04', 'supp/evaluator.py', r"            self\.level -= 1\n            self\.nodes\.remove\(node\)\n", "            self.level -= 1\n        self.nodes.remove(node)\n", 'C04-R2'),
     # ---- C05
     ('C05', 'supp/scope.py', r"return self\.parent\.names\n\n    @context_property", "return self.flow.names\n\n    @context_property", 'C05-R3'),
     ('C05', 'supp/scope.py', r"outer_names = set\(snames\)\.difference\(self\.scope\.locals\)", "outer_names = set(snames)", 'C05-R2'),
